@@ -238,6 +238,13 @@ pub enum AbandonAt {
     /// async only: all chunks, then the stream is shut down (`close()` / `shutdown()`), then
     /// the writer is dropped without `commit()` (sync: like `AfterFlush`)
     AfterShutdown,
+    /// async only: all chunks, then the `commit()` future is polled `n` times (>= 1, no-op waker,
+    /// a short pause between polls) and dropped if it is still pending — a commit cancelled in
+    /// flight by a timeout or `select!`. Undecided like a crash: the entry is the old or the
+    /// new one, the content is there or not — but nothing that was valid before is taken away.
+    /// If the commit completes within the polls it is an ordinary commit. (sync: dropped
+    /// without commit)
+    CommitDropped(u8),
 }
 
 /// Damage applied to a content file from outside (harness-side).
